@@ -1,4 +1,11 @@
-/- helper lemmas: oracle independence -/
+/- helper lemmas: oracle independence (C13).
+   OracleBase: socket, line/head readers, small bodies, `advance`;
+   OracleBody: streamed bodies (`readUpToO`);  OracleDrain: discard loops;
+   OracleLoop: `handleO`, `runLoopO`, and the mask `Trace.maskPartial`. -/
 import TinyHttpModel.WireOracle
+import TinyHttpModel.Lemmas.OracleBase
+import TinyHttpModel.Lemmas.OracleBody
+import TinyHttpModel.Lemmas.OracleDrain
+import TinyHttpModel.Lemmas.OracleLoop
 namespace TH
 end TH
